@@ -115,6 +115,7 @@ def run_native(unit, adapter, inputs):
     src = os.path.join(ROOT, 'replay', 'adapters', adapter)
     exe = os.path.join(work, os.path.splitext(adapter)[0])
     extra = []
+    nosan = False
     for ln in open(src):
         m = re.match(r'//\s*SOURCES:\s*(.*)', ln)
         if m:
@@ -122,8 +123,12 @@ def run_native(unit, adapter, inputs):
         m = re.match(r'//\s*CXXFLAGS:\s*(.*)', ln)
         if m:
             extra += m.group(1).split()
+        if re.match(r'//\s*SANITIZE:\s*none', ln):
+            nosan = True
     cmd = ['clang++-14', '-std=c++14', '-O1', '-g', '-fsanitize=address,undefined', '-fno-sanitize-recover=undefined',
            '-I/repo/src', '-I', os.path.join(ROOT, 'replay'), src] + extra + ['-o', exe]
+    if nosan:
+        cmd = [c for c in cmd if not c.startswith('-fsanitize') and not c.startswith('-fno-sanitize')]
     if exe not in _lib_built:
         p = subprocess.run(cmd, stdout=subprocess.PIPE, stderr=subprocess.STDOUT, text=True, timeout=900)
         _lib_built[exe] = (p.returncode, p.stdout)
